@@ -827,14 +827,12 @@ func checkBatchDisjoint(r *Reporter, p *Prog) {
 		applied := map[string]string{}
 		cf := newFuncCFG(p, info, fd.Body, "Commit")
 		for _, l := range cf.Loops() {
-			rs, isRange := l.Stmt.(*ast.RangeStmt)
-			if !isRange {
+			// what the loop ranges over, resolved through helper parameters: "range:b.setOperations"
+			bound := cf.LoopBound(l)
+			if !strings.HasPrefix(bound, "range:") || !strings.Contains(bound, ".") {
 				continue
 			}
-			se, ok := ast.Unparen(rs.X).(*ast.SelectorExpr)
-			if !ok {
-				continue
-			}
+			rangedField := bound[strings.LastIndex(bound, ".")+1:]
 			for _, pt := range cf.Find(func(n ast.Node) bool {
 				c, ok := n.(*ast.CallExpr)
 				if !ok {
@@ -853,7 +851,7 @@ func checkBatchDisjoint(r *Reporter, p *Prog) {
 							for _, a := range c.Args {
 								args = append(args, cf.KeyAt(a, pt))
 							}
-							applied[se.Sel.Name] = s2.Sel.Name + "(" + strings.Join(args, ",") + ")"
+							applied[rangedField] = s2.Sel.Name + "(" + strings.Join(args, ",") + ")"
 						}
 					}
 					return true
